@@ -280,16 +280,15 @@ func (e *Engine) atReturn(st *State, fr *Frame, res Val, x *ssa.Return) {
 // cloneForOblige: obligations at return must not strengthen each other (each ensures is proved independently).
 func (st *State) cloneForOblige() *State {
 	n := *st
+	n.pcSet = nil
 	n.pc = append([]*Term(nil), st.pc...)
 	return &n
 }
 
 func (e *Engine) frameCtx(st *State, fr *Frame, at *ssa.BasicBlock) *evalCtx {
 	env := map[string]Val{}
-	if e.isTopFn(fr) || fr.fn == e.cur.fn {
-		for k, v := range st.env {
-			env[k] = v
-		}
+	for k, v := range st.env {
+		env[k] = v
 	}
 	var pkg *types.Package
 	if fr.fn.Package() != nil {
@@ -651,6 +650,27 @@ func (e *Engine) checkAssignsRange(st *State, d Val, in ssa.Instruction) {
 // ---------- pure evaluation of Go functions inside contracts ----------
 
 func (e *Engine) evalPureCall(c *evalCtx, fn *ssa.Function, args []Val) Val {
+	// memoise per (function, argument terms, memory contents)
+	var kb strings.Builder
+	fmt.Fprintf(&kb, "%p/%d/%d", fn, c.st.memStamp(), len(c.st.pc))
+	for _, a := range args {
+		for _, l := range a.L {
+			fmt.Fprintf(&kb, ",%d", l.id)
+		}
+	}
+	key := kb.String()
+	if v, ok := e.pureCache[key]; ok {
+		return v
+	}
+	v := e.evalPureCall0(c, fn, args)
+	if e.pureCache == nil {
+		e.pureCache = map[string]Val{}
+	}
+	e.pureCache[key] = v
+	return v
+}
+
+func (e *Engine) evalPureCall0(c *evalCtx, fn *ssa.Function, args []Val) Val {
 	if m := lookupModel(fn); m != nil {
 		st := c.st.cloneLight()
 		res, ok := m(e, st, nil, fn, args, nil)
@@ -707,6 +727,7 @@ func (e *Engine) evalPureCall(c *evalCtx, fn *ssa.Function, args []Val) Val {
 func (st *State) cloneLight() *State {
 	n := st.snapshot()
 	n.entry = st.entry
+	n.isPure = true
 	n.nextRef = st.nextRef + 1<<20 // allocations inside pure calls must not collide with the caller's
 	return n
 }
